@@ -69,8 +69,10 @@ def gen_entry(rng, depth, names):
     if r < 0.68:
         # searched through --pre; the command prints the file, then exits 3 without a word on stderr
         return dict(name=name + "pf", kind="prefail", lines=gen_lines(rng, rng.random() < 0.6))
-    if r < 0.76:
+    if r < 0.74:
         return dict(name=name, kind="dangling")
+    if depth >= 1 and r < 0.80:
+        return dict(name=name, kind="looplink")          # a link to the directory that contains it
     if r < 0.86:
         return dict(name=name, kind="lockeddir")
     if depth < 2:
@@ -96,7 +98,7 @@ def gen_scenario(rng, force=None):
     def any_prefail(es):
         return any(e["kind"] == "prefail" or any_prefail(e.get("children", [])) for e in es)
     s = dict(entries=entries, mode=mode, threads=threads, sort=sort, implicit=implicit, pre=any_prefail(entries),
-             no_messages=rng.random() < 0.15, follow=rng.random() < 0.15, max0=rng.random() < 0.04,
+             no_messages=rng.random() < 0.15, follow=rng.random() < 0.3, max0=rng.random() < 0.04,
              stats=(mode in ("quiet", "std", "count") and rng.random() < 0.35))
     if force:
         s.update(force)
@@ -113,6 +115,8 @@ def materialize(s, root):
             os.chmod(p, 0 if k == "unreadable" else 0o644)
         elif k == "dangling":
             os.symlink("nowhere_" + e["name"], p)
+        elif k == "looplink":
+            os.symlink(".", p)
         elif k == "lockeddir":
             os.mkdir(p)
             with open(os.path.join(p, "inner"), "w") as f:
@@ -159,9 +163,10 @@ def walk_items(s):
                 items.append(dict(kind="err", path=path))
             else:
                 items.append(dict(kind="skip", path=path))
+        elif k == "looplink":
+            # followed only under -L: then the walker reports a file system loop (an error); otherwise not a file
+            items.append(dict(kind="err" if s["follow"] else "skip", path=path))
         elif k == "lockeddir":
-            if depth == 0 and s["mode"] == "files" and False:
-                pass
             items.append(dict(kind="skip", path=path))      # the directory entry itself
             items.append(dict(kind="err", path=path))       # reading it fails
         elif k == "dir":
@@ -287,6 +292,10 @@ def classify_stderr(err):
         if line.startswith("rg: No files were searched"):
             res.append((3, ""))
             continue
+        m = re.match(r"rg: File system loop found: (?:\./)?(\S+) points to an ancestor ", line)
+        if m:
+            res.append((1, m.group(1)))
+            continue
         m = re.match(r"rg: (?:\./)?(.*?): (Permission denied|No such file or directory|Is a directory)", line)
         if m:
             res.append((1, m.group(1)))
@@ -355,7 +364,7 @@ def check_fault_scenarios(ctx, scns, avail):
             stats[k] = stats.get(k, 0) + 1
         key = "%s/%s/%s" % (s["mode"], "par" if par else "ser", s["sort"])
         ctx.cov.setdefault("modes", {})[key] = ctx.cov.setdefault("modes", {}).get(key, 0) + 1
-        ctx.note_case(line, bool(kinds & {"unreadable", "missing", "dangling", "lockeddir", "prefail"}))
+        ctx.note_case(line, bool(kinds & {"unreadable", "missing", "dangling", "lockeddir", "prefail", "looplink"}))
         # ---- model vs code
         path_of = {v: k for k, v in ids.items()}
         got_diags = classify_stderr(r["err"])
@@ -819,6 +828,17 @@ def corpus():
              implicit=False, no_messages=True, follow=False, max0=False, pre=True),
         dict(entries=[dict(name="m", kind="missing"), f("b", ["zzz"])], mode="std", threads=1, sort=None,
              implicit=False, no_messages=True, follow=False, max0=False),
+        # traversal errors under -L: a link cycle, a dangling link; search and --files, one thread and several
+        dict(entries=[dict(name="d", kind="dir", children=[dict(name="self", kind="looplink"), f("x", ["hit"])])],
+             mode="std", threads=1, sort="sort", implicit=False, no_messages=False, follow=True, max0=False),
+        dict(entries=[dict(name="d", kind="dir", children=[dict(name="self", kind="looplink"), f("x", ["hit"])])],
+             mode="std", threads=4, sort=None, implicit=False, no_messages=False, follow=True, max0=False),
+        dict(entries=[dict(name="d", kind="dir", children=[dict(name="self", kind="looplink"), f("x", ["zzz"])])],
+             mode="files", threads=1, sort="sort", implicit=False, no_messages=False, follow=True, max0=False),
+        dict(entries=[dict(name="d", kind="dir", children=[dict(name="self", kind="looplink"), f("x", ["zzz"])])],
+             mode="files", threads=3, sort=None, implicit=True, no_messages=False, follow=True, max0=False),
+        dict(entries=[dict(name="d", kind="dir", children=[dict(name="self", kind="looplink"), f("x", ["hit"])])],
+             mode="count", threads=1, sort="sort", implicit=False, no_messages=False, follow=False, max0=False),
         # quiet is not quit_after_match: -q --stats searches everything, still exits 0 on a match despite an error
         dict(entries=[f("a", ["hit"]), dict(name="u", kind="unreadable", lines=["hit"])], mode="quiet", threads=1,
              sort=None, implicit=False, no_messages=False, follow=False, max0=False, stats=True),
